@@ -24,7 +24,8 @@ RULE = ("Hypothesis draws a system spec, 1-3 valid simple edits on distinct attr
         "(build(spec) + the same changes in one ModelingUpdate) and the value of build(spec_after), rtol 1e-9. interior/"
         "last with all patterns still active: every hourly recomputed value starts at or after the date. Always: "
         "len(values_to_recompute) == len(recomputed_values), twins linked both ways on the same attribute. before/after/"
-        "naive: an exception is required and (C05) nothing changes. Non-trivial = >=1 hourly value recomputed and "
+        "naive: an exception is required and (C05) nothing changes. In 40% of the cases another simulation was created "
+        "(and possibly switched on and off) on the same model before. Non-trivial = >=1 hourly value recomputed and "
         "(interior date or >=2 time zones).")
 ASSUMPTIONS = ["change lists whose target model is invalid (fresh build raises) are skipped here (C05/C15 territory)"]
 BUDGET = {"quick": dict(examples=14, wall_guard_s=600), "thorough": dict(examples=220, wall_guard_s=3600)}
@@ -35,8 +36,14 @@ DATE_KINDS = ["first", "first", "first", "interior", "interior", "last", "before
 def cases(draw):
     spec = draw(G.specs(max_len=36, long_prob=0.05))
     ch, _ = draw(c05.sim_changes(spec, allow_bad=False))
+    prior = None
+    if draw(st.floats(0, 1)) < 0.4:
+        # another what-if was explored on the same model before (and left, or switched on and off again)
+        pch, _ = draw(c05.sim_changes(spec, allow_bad=False))
+        prior = {"changes": pch, "date_kind": draw(st.sampled_from(["first", "interior"])),
+                 "toggled": draw(st.booleans())}
     return {"spec": spec, "id_seed": draw(st.integers(0, 2 ** 20)), "changes": ch,
-            "date_kind": draw(st.sampled_from(DATE_KINDS)), "k": draw(st.integers(1, 30))}
+            "date_kind": draw(st.sampled_from(DATE_KINDS)), "k": draw(st.integers(1, 30)), "prior": prior}
 
 
 def check(case, ctx):
@@ -71,6 +78,18 @@ def check(case, ctx):
         "timezone_changed" if kinds & {"Country.timezone", "UsagePattern.country"} else "none")
     sig = {"trigger": trigger}
     fail = lambda k_, detail, extra=None: ctx.violation(k_, case, detail, dict(sig, kind=k_, **(extra or {})))
+    if case.get("prior"):
+        pr = case["prior"]
+        try:
+            with M.watchdog():
+                pmu = ModelingUpdate(E.changes_for_simulation(objs, pr["changes"]),
+                                     c05.sim_date(pr["date_kind"], case["k"], lo, hi))
+                if pr["toggled"]:
+                    pmu.set_updated_values()
+                    pmu.reset_values()
+            labels.append("prior_simulation" + ("_toggled" if pr["toggled"] else ""))
+        except Exception:
+            labels.append("prior_simulation_refused")
     try:
         with M.watchdog():
             mu = ModelingUpdate(E.changes_for_simulation(objs, case["changes"]), date)
